@@ -69,12 +69,12 @@ impl FeatureRewriterBuilder {
             } else {
                 Pattern::Exact(p.to_string())
             };
-            for action in &self.nodes[cursor].actions {
-                if let Action::Transition(edge) = action {
-                    if parsed == edge.pattern {
-                        cursor = edge.target;
-                        continue 'a;
-                    }
+            // Only the last action can be shared. Sharing an earlier edge would move this
+            // rule before the rules registered in between and break the first-match order.
+            if let Some(Action::Transition(edge)) = self.nodes[cursor].actions.last() {
+                if parsed == edge.pattern {
+                    cursor = edge.target;
+                    continue 'a;
                 }
             }
             let target = self.nodes.len();
